@@ -139,8 +139,9 @@ static void run_threads(int n, F body) {
 extern "C" void sonic_verif_point(int kind, const void* addr) { sch::point(kind, addr); }
 
 // ------------------------------------------------------------------ scenarios
-enum AOp { M24 = 0, M48 = 1, R40 = 2, R200 = 3 };
-static const char* kAOpName[4] = {"Malloc(24)", "Malloc(48)", "Realloc(own24,24,40)", "Realloc(own24,24,200)"};
+enum AOp { M24 = 0, M48 = 1, R40 = 2, R200 = 3, RN = 4 };
+static const int NAOP = 5;
+static const char* kAOpName[5] = {"Malloc(24)", "Malloc(48)", "Realloc(own24,24,40)", "Realloc(own24,24,200)", "Realloc(null,0,24)"};
 struct Program {
   int nthreads;
   std::vector<std::vector<int>> ops;  // per thread
@@ -185,9 +186,10 @@ static void run_alloc_program(const Program& P) {
     for (size_t k = 0; k < P.ops[t].size(); k++) {
       sch::point(0, nullptr);  // operation boundary
       int op = P.ops[t][k];
-      if (op == M24 || op == M48) {
-        size_t s = op == M24 ? 24 : 48;
-        char* p = (char*)pool.Malloc(s);
+      if (op == M24 || op == M48 || op == RN) {
+        size_t s = op == M48 ? 48 : 24;
+        // (a Realloc of the null pointer is an allocation: the first growth of an empty container takes this path)
+        char* p = op == RN ? (char*)pool.Realloc(nullptr, 0, s) : (char*)pool.Malloc(s);
         if (!p) {
           obs[t] += "N";
           continue;
@@ -499,21 +501,21 @@ int main(int argc, char** argv) {
 
   // scenario C programs
   std::vector<Program> progs;
-  for (int a = 0; a < 4; a++)
-    for (int b = 0; b < 4; b++)
-      for (int c = 0; c < 4; c++)
-        for (int d = 0; d < 4; d++) {
+  for (int a = 0; a < NAOP; a++)
+    for (int b = 0; b < NAOP; b++)
+      for (int c = 0; c < NAOP; c++)
+        for (int d = 0; d < NAOP; d++) {
           if (quick) {
-            // 5 shapes for thread 0 (allocate-then-grow, grow-then-allocate, plain) x all 16 for thread 1
-            bool keep = (a == M24 && b == R40) || (a == M24 && b == R200) || (a == R40 && b == M24) || (a == R200 && b == M48) || (a == M48 && b == M48);
+            // 7 shapes for thread 0 (allocate-then-grow, grow-then-allocate, plain, through Realloc(null)) x all 25 for thread 1
+            bool keep = (a == M24 && b == R40) || (a == M24 && b == R200) || (a == R40 && b == M24) || (a == R200 && b == M48) || (a == M48 && b == M48) || (a == RN && b == RN) || (a == RN && b == R200);
             if (!keep) continue;
           }
           progs.push_back(Program{2, {{a, b}, {c, d}}});
         }
   std::vector<Program> progs3;
-  for (int a = 0; a < 4; a++)
-    for (int b = a; b < 4; b++)
-      for (int c = b; c < 4; c++) progs3.push_back(Program{3, {{a}, {b}, {c}}});
+  for (int a = 0; a < NAOP; a++)
+    for (int b = a; b < NAOP; b++)
+      for (int c = b; c < NAOP; c++) progs3.push_back(Program{3, {{a}, {b}, {c}}});
   // doc programs: A: 2 threads x 4 ops ; B: 2-3 threads x 3 read-only ops
   std::vector<DocProgram> dprogs;
   dprogs.push_back(DocProgram{0, 2, {{0, 1, 2, 3}, {0, 1, 2, 3}}});
@@ -530,7 +532,7 @@ int main(int argc, char** argv) {
   fc.count = progs.size();
   fc.chunk = 1;
   fc.group = "SC";
-  fc.rule = "scenario C: one shared MemoryPoolAllocator (chunk capacity 64, SONIC_LOCKED_ALLOCATOR), 2 threads x 2 operations from {Malloc(24), Malloc(48), Realloc(own,24,40), Realloc(own,24,200)}; for every program ALL schedules over the hooked points (lock try, lock wait, shared accesses, operation boundaries) with at most " +
+  fc.rule = "scenario C: one shared MemoryPoolAllocator (chunk capacity 64, SONIC_LOCKED_ALLOCATOR), 2 threads x 2 operations from {Malloc(24), Malloc(48), Realloc(own,24,40), Realloc(own,24,200), Realloc(null,0,24)}; for every program ALL schedules over the hooked points (lock try, lock wait, shared accesses, operation boundaries) with at most " +
             std::to_string(bound) + " preemptions; oracle after join: blocks disjoint, aligned, contents intact, Size() consistent, no deadlock/livelock; evaluations = work items (a program's default schedule or one first-level subtree of its schedule tree); complete schedules executed are reported as states/transitions";
   fc3.name = "SC_alloc_3threads_x1op";
   fc3.count = progs3.size();
